@@ -19,7 +19,6 @@ import (
 	"errors"
 	"fmt"
 	"io"
-	"os"
 	"reflect"
 	"sort"
 	"strings"
@@ -33,11 +32,6 @@ import (
 
 func init() {
 	logx.Disable()
-	// bin/check always points VERIF_KNOWN at /verif/known_findings.txt; a
-	// harness builder keeps his open findings in a private file instead.
-	if p := os.Getenv("VERIF_KNOWN_C11"); p != "" {
-		_ = os.Setenv("VERIF_KNOWN", p)
-	}
 	sql.Register(c11DriverName, c11Driver{})
 }
 
